@@ -7,7 +7,8 @@ import corr_units as U
 PID = "C07"
 PROPS_MODULE = "Props.C07"
 THEOREMS = ["decay_zero", "decay_additive", "decay_linear", "decay_split"]
-REQUIRED = ["Props/C07.v", "Model/DecayCheck.v"]
+EXTRA_PROPS = {"Props.C07b": ["exact_flow_depends_only_on_ancestors", "default_zero_time_decay", "default_unrelated_nuclides"]}
+REQUIRED = ["Props/C07.v", "Props/C07b.v", "Model/DecayCheck.v"]
 TRANSLATORS = ["tr_data", "tr_tables", "tr_pure"]
 SHAPE_KEYS = ["Inventory::decay", "InventoryHP::decay", "AbstractInventory::_setup_decay_calc",
               "AbstractInventory::_perform_decay_calc", "__add__", "__mul__", "load_dataset"]
